@@ -17,8 +17,8 @@ TABLE = {
         rule="a peer frame (valid, boundary-valued, malformed or garbage) is handed to recv",
         nontrivial=lambda n: _op(n) in ("recv", "garbage"), profile="hostile"),
     "C06": dict(
-        quick=["qos_c311", "qos_c50_rm", "qos_offline", "qos_server", "qos_order", "mps_resume"],
-        thorough=["qos_c311", "qos_c311_auto", "qos_c50", "qos_c50_rm", "qos_offline", "qos_server", "mps_resume", "qos_order"],
+        quick=["qos_c311", "qos_c50_rm", "qos_offline", "qos_server", "qos_order", "mps_resume", "opt_flips"],
+        thorough=["qos_c311", "qos_c311_auto", "qos_c50", "qos_c50_rm", "qos_offline", "qos_server", "mps_resume", "qos_order", "opt_flips"],
         rule="a QoS>0 PUBLISH/PUBREL is sent, acknowledged, erased or re-sent",
         nontrivial=lambda n: _kind(n) in ("publish", "pubrel", "puback", "pubrec", "pubcomp") or (_kind(n) == "connack" and n["call"]["pkt"]["sp"]),
         profile="qos"),
@@ -38,7 +38,7 @@ TABLE = {
         rule="a reused object runs next to a fresh shadow object after a close",
         nontrivial=lambda n: n.get("shadow") == "fresh", profile="reuse"),
     "C11": dict(
-        quick=["gate", "gate_x", "in_qos2_disc"], thorough=["gate", "gate_x", "in_qos2_disc", "qos_offline"],
+        quick=["gate", "gate_x", "in_qos2_disc", "opt_flips"], thorough=["gate", "gate_x", "in_qos2_disc", "qos_offline", "opt_flips"],
         rule="send is called (one cell of role x version x state x kind)",
         nontrivial=lambda n: _op(n) == "send", profile="gate"),
     "C12": dict(
